@@ -554,17 +554,17 @@ def docOk (prev : Option Doc) (d : Doc) : Bool :=
           | .ok b => decide (b.length ≤ UINTVAR_MAX)
           | .error _ => false)
 
-/-- canonical documents of one buffer -/
-def docsOk : Option Doc → List Doc → Bool
-  | _, [] => true
-  | prev, d :: ds => docOk prev d && docsOk (some d) ds
-
 /-- what the parser makes of a document: for an NCDT id the constant table is the default one
 (`as_bytes` writes nothing for it, whatever the document object holds) -/
 def normDoc (d : Doc) : Doc :=
   match configOf d.id with
   | .ok (di, cfg) => if di.ncdt then { d with cdt := buildConstants cfg.consts } else d
   | .error _ => d
+
+/-- canonical documents of one buffer (each one judged against its parsed predecessor) -/
+def docsOk : Option Doc → List Doc → Bool
+  | _, [] => true
+  | prev, d :: ds => docOk prev d && docsOk (some (normDoc d)) ds
 
 /-- `as_bytes` of every document, concatenated -/
 def asBytesAll : List Doc → R Bytes
